@@ -117,12 +117,9 @@ func GenerateImpl(seed uint64, root string) *Module {
 	ifcPool := g.typePool("")
 	// inside the interface packages only self-contained types are used
 	usable := func(i int) bool {
-		for _, s := range ifcPool[i].spellings {
-			if strings.Contains(s, "Local") || strings.Contains(s, "Str") || strings.Contains(s, "PData") {
-				return false
-			}
-		}
-		return true
+		// the interface package writes the first spelling; the user package may write any identical alternative
+		s := ifcPool[i].spellings[0]
+		return !strings.Contains(s, "Local") && !strings.Contains(s, "Str") && !strings.Contains(s, "PData")
 	}
 	nI := 2 + r.Intn(3)
 	type iface struct {
